@@ -21,45 +21,68 @@ def showObj (s : St) (keys : List Nat) (o : Nat) : String :=
 
 def cacheKeys : List Nat := [0, 1, 2]
 
-/-! Interpreter plumbing only: the model's state is made of functions updated by wrapping closures;
-after each request the driver re-tabulates them into arrays (extensionally the same functions on
-every id that was ever created; ids beyond keep the initial defaults) so that look-ups stay O(1). -/
-def lookupA {α} (a : Array α) (d : α) (o : Nat) : α := if h : o < a.size then a[o] else d
+/-! Interpreter plumbing only: the model's state is made of functions updated by wrapping closures.
+Between requests the driver keeps the state as plain DATA (arrays), injects it into the model's
+function-valued state for one step and extracts the result again (extensionally the same functions
+on every id ever created and every parameter id up to the largest definition id; beyond that the
+initial defaults).  This keeps look-ups O(1) (closures returning closures are eta-expanded by the
+compiler, so caching inside closures does not work). -/
+structure Data where
+  vals : Array (Array Nat)
+  assigned : Array Nat
+  backup : Array (List Frame)
+  cache : Array (Array (Option Nat))
+  cacheBk : Array (List (Nat → Option Nat))
+  grid : Array (Option GridVal)
+  gridBk : Array (List GridVal)
+  dassigned : Array Nat
+  dbackup : Array (List Nat)
+  defs : Array (List Nat)
+  readOnly : Array Bool
+  serial : Array Nat
+  counter : Nat
+  next : Nat
 
-/-- NB: every array below is a `let` of a function whose result is a structure, so it is evaluated
-once when `compact` runs; the fields are partial applications of `lookupA` to evaluated arrays. -/
-def compact (s : St) (touched : List Nat) : St :=
+def Data.empty : Data :=
+  { vals := #[], assigned := #[], backup := #[], cache := #[], cacheBk := #[], grid := #[], gridBk := #[],
+    dassigned := #[], dbackup := #[], defs := #[], readOnly := #[], serial := #[], counter := 0, next := 0 }
+
+def inject (d : Data) : St :=
+  { vals := fun o x => (d.vals.getD o #[]).getD x 0
+    assigned := fun o => d.assigned.getD o NEVER
+    backup := fun o => d.backup.getD o []
+    cache := fun o k => (d.cache.getD o #[]).getD k none
+    cacheBk := fun o => d.cacheBk.getD o []
+    grid := fun o => d.grid.getD o none
+    gridBk := fun o => d.gridBk.getD o []
+    dassigned := fun x => d.dassigned.getD x NEVER
+    dbackup := fun x => d.dbackup.getD x []
+    defs := fun o => d.defs.getD o []
+    readOnly := fun o => d.readOnly.getD o false
+    serial := fun o => d.serial.getD o 0
+    counter := d.counter
+    next := d.next }
+
+def extract (s : St) (old : Data) (touched : List Nat) : Data :=
   let n := s.next
-  let md := (List.range n).foldl (fun m o => max m ((s.defs o).foldl max 0)) 0 + 1
   let rng := Array.range n
-  let valsA := rng.map (fun o =>
-    if o ∈ touched then
-      lookupA ((Array.range ((s.defs o).foldl max 0 + 1)).map (s.vals o)) 0
-    else s.vals o)
-  let assignedA := rng.map s.assigned
-  let backupA := rng.map s.backup
-  let cacheA := rng.map (fun o => lookupA ((Array.range 3).map (s.cache o)) none)
-  let cacheBkA := rng.map s.cacheBk
-  let gridA := rng.map s.grid
-  let gridBkA := rng.map s.gridBk
-  let dassA := (Array.range md).map s.dassigned
-  let dbkA := (Array.range md).map s.dbackup
-  let defsA := rng.map s.defs
-  let roA := rng.map s.readOnly
-  let serA := rng.map s.serial
-  { s with
-    vals := lookupA valsA (s.vals n)
-    assigned := lookupA assignedA (s.assigned n)
-    backup := lookupA backupA (s.backup n)
-    cache := lookupA cacheA (s.cache n)
-    cacheBk := lookupA cacheBkA (s.cacheBk n)
-    grid := lookupA gridA (s.grid n)
-    gridBk := lookupA gridBkA (s.gridBk n)
-    dassigned := lookupA dassA (s.dassigned md)
-    dbackup := lookupA dbkA (s.dbackup md)
-    defs := lookupA defsA (s.defs n)
-    readOnly := lookupA roA (s.readOnly n)
-    serial := lookupA serA (s.serial n) }
+  let md := (List.range n).foldl (fun m o => max m ((s.defs o).foldl max 0)) (old.dassigned.size) + 1
+  { vals := rng.map (fun o =>
+      if o ∈ touched ∨ o ≥ old.vals.size then (Array.range ((s.defs o).foldl max 0 + 1)).map (fun x => s.vals o x)
+      else old.vals.getD o #[])
+    assigned := rng.map (fun o => s.assigned o)
+    backup := rng.map (fun o => s.backup o)
+    cache := rng.map (fun o => (Array.range 3).map (fun k => s.cache o k))
+    cacheBk := rng.map (fun o => s.cacheBk o)
+    grid := rng.map (fun o => s.grid o)
+    gridBk := rng.map (fun o => s.gridBk o)
+    dassigned := (Array.range md).map (fun x => s.dassigned x)
+    dbackup := (Array.range md).map (fun x => s.dbackup x)
+    defs := rng.map (fun o => s.defs o)
+    readOnly := rng.map (fun o => s.readOnly o)
+    serial := rng.map (fun o => s.serial o)
+    counter := s.counter
+    next := n }
 
 def touchedOf (s : St) (ws : List String) : List Nat :=
   match ws with
@@ -138,6 +161,9 @@ def stepLine (s : St) (ws : List String) : St × String :=
   | ["ddump", ds] => match parseNatList? ds with
       | some ds => (s, showList (fun d => toString (s.dassigned d) ++ "/" ++ toString (s.dbackup d).length) ds)
       | _ => bad
+  | ["dsetall", as] => match parseNatList? as with   -- fixture set-up: `assigned` of definitions 0..n-1
+      | some as => ({ s with dassigned := fun d => if d < as.length then as.getD d NEVER else s.dassigned d }, "ok")
+      | _ => bad
   | ["dset", d, a] => match parseNat? d, parseNat? a with   -- fixture set-up: a definition's current `assigned`
       | some d, some a => ({ s with dassigned := upd s.dassigned d a }, "ok")
       | _, _ => bad
@@ -160,8 +186,9 @@ def stepLine (s : St) (ws : List String) : St × String :=
       | _ => bad
   | _ => bad
 
-def stepC (s : St) (ws : List String) : St × String :=
+def stepC (d : Data) (ws : List String) : Data × String :=
+  let s := inject d
   let r := stepLine s ws
-  (compact r.1 (touchedOf s ws), r.2)
+  (extract r.1 d (touchedOf s ws), r.2)
 
-def main : IO Unit := loopState St.empty stepC
+def main : IO Unit := loopState Data.empty stepC
